@@ -175,6 +175,18 @@ fn decrypt_chunks<T: Read, U: Write>(
     Ok(())
 }
 
+/// Verification hook: [`decrypt_chunks`] with a caller-chosen key, AAD and chunk size.
+#[cfg(feature = "verif")]
+pub fn verif_decrypt_chunks<T: Read, U: Write>(
+    ciphertext: &mut T,
+    plaintext: &mut U,
+    key: &[u8],
+    aad: &[u8],
+    chunk_size: u32,
+) -> Result<(), DecryptError> {
+    decrypt_chunks(ciphertext, plaintext, key, aad, chunk_size)
+}
+
 /// Check if the given data conforms to one of the [`FileFormat`] types.
 pub fn valid_file_format(header: &[u8]) -> Result<FileFormat, FileFormatError> {
     let asym_v1 = [0x65, 0x67, 0x6b, 0x10];
